@@ -164,7 +164,7 @@ fn check_sorted(ctx: &mut Ctx, tab: &Table, got: &Value, integer: bool, tag: &st
 
 pub fn run(ctx: &mut Ctx) {
     // plaintext Sort: bit-string keys
-    let total = ctx.q(3000, 60000);
+    let total = ctx.q(15000, 250000);
     ctx.cases("plain_sort", total, |ctx, idx| {
         let n = (idx % 12 + 1) as usize;
         let b = ((idx / 12) % 10 + 1) as usize;
@@ -187,7 +187,7 @@ pub fn run(ctx: &mut Ctx) {
         }
     });
     // SortByIntegerKey: all 11 key types
-    let total = ctx.q(1100, 22000);
+    let total = ctx.q(5500, 90000);
     ctx.cases("integer_sort", total, |ctx, idx| {
         let st = ALL_ST[(idx % 11) as usize];
         let n = ((idx / 11) % 12 + 1) as usize;
@@ -207,7 +207,7 @@ pub fn run(ctx: &mut Ctx) {
         ctx.case_done(mix(&[idx, 2, crate::rng::fnv(format!("{}", tab.t).as_bytes())]), n >= 2);
     });
     // permutations: apply then apply-inverse restores the array
-    let total = ctx.q(1200, 24000);
+    let total = ctx.q(6000, 100000);
     ctx.cases("permutations", total, |ctx, idx| {
         // all permutations for n <= 5 (by index), random ones up to 12
         let (n, perm): (usize, Vec<u128>) = if idx < 153 {
@@ -292,7 +292,7 @@ pub fn run(ctx: &mut Ctx) {
         ctx.case_done(mix(&[3, n as u64, crate::rng::fnv(format!("{:?}", perm).as_bytes())]), n >= 2);
     });
     // compiled secure sort / permutation = plaintext
-    let total = ctx.q(160, 3200);
+    let total = ctx.q(400, 6000);
     ctx.cases("compiled", total, |ctx, idx| {
         let kind = idx % 4;
         let n = ctx.rng.range(1, 8) as usize;
